@@ -204,6 +204,7 @@ type routingCase struct {
 	Serve    bool       `json:"serve_http"`
 	Filter   bool       `json:"filter"`
 	Longhand bool       `json:"longhand,omitempty"` // routes declared with Method(m).Path(p)
+	Options  bool       `json:"options_filter,omitempty"`
 	Tier     string     `json:"tier,omitempty"`
 	Lite     bool       `json:"lite,omitempty"`
 	ReqIndex int        `json:"req_index,omitempty"` // position of Req in the sweep's request list (history replay)
@@ -226,7 +227,7 @@ func replayRouting(oracle func(rc routingCase, o rs.Outcome) error) replayFn {
 			return err
 		}
 		rs.Quiet(false)
-		b := rs.Build(rc.Table, rs.BuildOpt{Router: routerOf(rc.Router), Filter: rc.Filter, Longhand: rc.Longhand})
+		b := rs.Build(rc.Table, rs.BuildOpt{Router: routerOf(rc.Router), Filter: rc.Filter, Longhand: rc.Longhand, Options: rc.Options})
 		if b.Panic != "" {
 			return fmt.Errorf("container construction panics: %s", b.Panic)
 		}
@@ -238,7 +239,7 @@ func replayRouting(oracle func(rc routingCase, o rs.Outcome) error) replayFn {
 		// not reproduced alone: replay the sweep's requests that preceded it on a fresh container
 		for _, sp := range routingSweeps(routerOf(rc.Router), rc.Tier, rc.Lite) {
 			if sp.Name == rc.Sweep && rc.ReqIndex < len(sp.Reqs) {
-				b := rs.Build(rc.Table, rs.BuildOpt{Router: routerOf(rc.Router), Filter: rc.Filter, Longhand: rc.Longhand})
+				b := rs.Build(rc.Table, rs.BuildOpt{Router: routerOf(rc.Router), Filter: rc.Filter, Longhand: rc.Longhand, Options: rc.Options})
 				for k := 0; k <= rc.ReqIndex; k++ {
 					o = b.Do(sp.Reqs[k].HTTP(), h.NewRec(), rc.Serve)
 				}
